@@ -279,6 +279,8 @@ class Observer:
     # -- wrappers call these
     def before_prep(self, state, md_items):
         self.state = state
+        if self.flags.get("C14"):
+            self.c14_snapshot_initial(state)
         self._locks_before = state._locks.copy()
         if self.flags.get("C05") and state.toinitiate < 0 or True:
             self.check_pickable(state)
@@ -523,12 +525,89 @@ class Observer:
             want_locked = sorted((tuple(i["ens"]), tuple(str(p) for p in i["paths"])) for i in self.jobs.values())
             if sorted(rec_locked) != want_locked:
                 self.stat("restart-record-differs-from-in-flight")  # judged under C06/C08, only counted here
+        if self.flags.get("C14"):
+            self.c14_after_treat(state, info, acc)
         self.check_cache(state, "after-treat")
         self.carry["cstep"] = state.cstep
         self.carry["inflight_at_last_step"] = [
             {"job": j, "ens": list(i["ens"]), "paths": list(i["paths"])} for j, i in sorted(self.jobs.items())
         ]
         self.carry["frac"] = {int(pn): [str(x) for x in d["frac"]] for pn, d in state.traj_data.items()}
+
+    # ---------------- C14: files of live paths / restart file / initial paths / deletion lag
+    def c14_snapshot_initial(self, state):
+        if "init_digest" in self.carry:
+            return
+        load_dir = state.config["simulation"]["load_dir"]
+        dig = {}
+        for pn in range(state.n - 1):
+            dig.update({f"{pn}/{k}": v for k, v in tree_digest(os.path.join(load_dir, str(pn))).items()})
+        self.carry["init_digest"] = dig
+        self.carry["replaced"] = {}
+        self.carry["repl_events"] = 0
+
+    def c14_after_treat(self, state, info, acc):
+        load_dir = state.config["simulation"]["load_dir"]
+        nreal = state.n - 1
+        # live paths: every referenced file exists, no file shared by two live paths
+        owner = {}
+        for t in state._trajs[:-1]:
+            for a in t.adress:
+                if not os.path.isfile(a):
+                    self.bad("C14:file-of-live-path-missing", f"path {t.path_number}: {a}")
+                if a in owner and owner[a] != t.path_number:
+                    self.bad("C14:file-shared-by-two-live-paths", f"{a}: {owner[a]} and {t.path_number}")
+                owner[a] = t.path_number
+                if not os.path.abspath(a).startswith(os.path.abspath(load_dir) + os.sep):
+                    self.bad("C14:live-path-file-outside-load-dir", a)
+        # the restart file on disk: every active path is loadable from its own directory
+        try:
+            import tomli
+
+            with open("restart.toml", "rb") as fh:
+                cfg = tomli.load(fh)
+            for pn in cfg["current"]["active"]:
+                pdir = os.path.join(load_dir, str(pn))
+                tt = os.path.join(pdir, "traj.txt")
+                if not os.path.isfile(tt) or not os.path.isfile(os.path.join(pdir, "order.txt")):
+                    self.bad("C14:active-path-of-restart-file-lost-its-tables", f"path {pn}")
+                    continue
+                for line in open(tt):
+                    if line.startswith("#"):
+                        continue
+                    f = os.path.join(pdir, "accepted", line.split()[1])
+                    if not os.path.isfile(f):
+                        self.bad("C14:active-path-of-restart-file-lost-a-frame-file", f"path {pn}: {f}")
+                        break
+        except FileNotFoundError:
+            pass
+        # initial paths untouched
+        dig = {}
+        for pn in range(nreal):
+            dig.update({f"{pn}/{k}": v for k, v in tree_digest(os.path.join(load_dir, str(pn))).items()})
+        if dig != self.carry.get("init_digest"):
+            self.bad("C14:initial-path-files-changed", f"{sorted(set(dig.items()) ^ set(self.carry.get('init_digest', {}).items()))[:4]}")
+        # deletion lag of replaced paths
+        rep = self.carry.setdefault("replaced", {})
+        if acc and info:
+            for pn in info["paths"]:
+                if pn >= nreal:  # initial paths are never deleted
+                    self.carry["repl_events"] = self.carry.get("repl_events", 0) + 1
+                    pdir = os.path.join(load_dir, str(pn), "accepted")
+                    files = [os.path.join(pdir, f) for f in os.listdir(pdir)] if os.path.isdir(pdir) else []
+                    rep[pn] = {"event": self.carry["repl_events"], "files": files, "gone": None, "lifetime": self.carry.get("lifetime", 0)}
+        delete_old = state.config["output"].get("delete_old", False)
+        for pn, r in rep.items():
+            if r["gone"] is None and r["files"] and not all(os.path.isfile(f) for f in r["files"]):
+                r["gone"] = self.carry.get("repl_events", 0)
+                lag = r["gone"] - r["event"]
+                self.stat("deletions")
+                if len(self.jobs) >= 1:
+                    self.stat("deletions_while_jobs_in_flight")
+                if not delete_old:
+                    self.bad("C14:files-deleted-although-delete_old-is-off", f"path {pn}")
+                elif lag < nreal - 1:
+                    self.bad("C14:replaced-path-deleted-before-the-lag", f"path {pn} replaced at event {r['event']}, files gone after {lag} later replacements (< {nreal - 1})")
 
     @staticmethod
     def read_rows(data_file, offset=0):
